@@ -51,6 +51,7 @@ theorem applyFrame_carries (idx : Nat) (f : Frame) (cjs : Bool) {v : JsVal} {fl 
       · simp [Frame.unwraps] at hu
     | ja => simp [Frame.swallows] at hsw
     | fcs => simp [Frame.swallows] at hsw
+    | jiu => simp [Frame.swallows] at hsw
     | rfw => simp [Frame.rewraps] at hrw
     | _ =>
       cases cjs <;>
@@ -70,6 +71,7 @@ theorem applyFrame_carries (idx : Nat) (f : Frame) (cjs : Bool) {v : JsVal} {fl 
       · simp [Frame.unwraps] at hu
     | ja => simp [Frame.swallows] at hsw
     | fcs => simp [Frame.swallows] at hsw
+    | jiu => simp [Frame.swallows] at hsw
     | rfw => simp [Frame.rewraps] at hrw
     | _ =>
       cases cjs <;>
